@@ -251,6 +251,20 @@ def nontrivial(case):
     return nz(case["am"]["d"]) and nz(case["am"]["U"]) and nz(case["ph"]["U"]) and gen.all_biases_nonzero(case)
 
 
+@st.composite
+def sampling_cases(draw, tier):
+    """the diagonal is what the model samples from - also with long chains (more than 16 / 32 Gibbs steps) on slowly mixing (strongly coupled) models"""
+    k = draw(st.sampled_from([2, 17, 40, 200]))
+    sc = draw(gen.state_case(types=["density"], n=(2, 3), nh=(1, 2), na=(1, 2), scales=[2.0, 4.0, 6.0] if k > 2 else [0.5, 2.0], bound=40.0))
+    return {"state": sc, "k": k, "v0": draw(st.integers(0, 2 ** sc["n"] - 1)), "torch_seed": draw(st.integers(0, 2 ** 31 - 1)), "m": draw(st.integers(1, 5))}
+
+
+def check_sampling(case):
+    from vf.props import c05
+    return c05.check_empirical(case)
+
+
 SUBCHECKS = [
     Sub("physical", check, strategy=lambda tier: cases(tier), quick=1500, thorough=30000, nontrivial=nontrivial, labels=gen.arch_label),
+    Sub("sampling", check_sampling, strategy=lambda tier: sampling_cases(tier), quick=32, thorough=400, per_shard=2),
 ]
